@@ -74,7 +74,7 @@ CHECKS["C09"] = dict(
 CHECKS["C10"] = dict(
     category="fault_enumeration", design_ref="5 C10", engine="tlc+lssim",
     technique="crash-point and I/O-error injection on the real log stores, recovered state judged by TLC against LogStore.tla",
-    text="Saves are interrupted at a chosen file-system operation (everything unsynced before it is dropped), the store is reopened and TLC requires every replica to show either the state before or the state after the interrupted save, and every earlier acknowledged save; for the Pebble-backed store an error is injected at each KV call of a save, which must then fail or be completely readable.",
+    text="Saves are interrupted at a chosen file-system operation - by a power loss (everything unsynced before it is dropped) or by the death of the process (everything written before it survives, nothing after it; in half of these the machine loses power as soon as the reopen, which may have repaired a log that ends in an incomplete record, has returned) -, the store is reopened and TLC requires every replica to show either the state before or the state after the interrupted save, and every earlier acknowledged save; for the Pebble-backed store an error is injected at each KV call of a save, which must then fail or be completely readable.",
     note=LS_NOTE + " Crash points are sampled (operation 1..40 of a save), not enumerated per save; Tan I/O-error injection at FS level is not done (Tan panics in a goroutine).")
 
 CHECKS["C12"] = dict(
@@ -114,7 +114,7 @@ CHECKS["C01"] = dict(
 CHECKS["C04"] = dict(
     engine="tlc+nhsim", category="model_checking", design_ref="5 C04",
     technique="TLA+ pipeline specification (Pipeline.tla) model-checked exhaustively with a crash at every step (MCPipeline) and evaluated by TLC on Save/Send/Crash/Boot event streams of real NodeHosts (PipelineTrace)",
-    text="MCPipeline: every interleaving of step / send-free-order / save / send / commit with an adversarial environment and power loss at any pc, PersistBeforeSend, RestartMonotone and ApplyNotAheadOfSave hold (684k states); the mutated orders (send before save, apply before save) are refuted (vacuity checks). PipelineTrace on real executions: a recording ILogDB (stamped after SaveRaftState returned) and a recording ITransport (stamped at egress) share one sequence; for every message that implies durable state (votes, vote requests, replication acks, heartbeat responses, ...) TLC requires the term/vote/entries it implies in the durable image built from the completed saves; an entry reaches the user state machine only after the replica made it durable itself (ApplyCovered); after every power loss (also at the N-th file-system operation, repeated on a partitioned host, clean restarts in between) the image the log store returns must cover everything the replica told the world; finally all hosts lose power at once and every proposal that was reported Completed must be visible to a linearizable read. Pebble and Tan.",
+    text="MCPipeline: every interleaving of step / send-free-order / save / send / commit with an adversarial environment and power loss at any pc, PersistBeforeSend, RestartMonotone and ApplyNotAheadOfSave hold (684k states); the mutated orders (send before save, apply before save) are refuted (vacuity checks); with a single voting member (MC_Pipeline_solo) a commit index told to a non-voting member is covered by the sender's durable log (CommitToldIsDurable; the early-send order is refuted), and the same predicate (CommitCovered) is evaluated on every Replicate that leaves the only voting member of a shard on real NodeHosts. PipelineTrace on real executions: a recording ILogDB (stamped after SaveRaftState returned) and a recording ITransport (stamped at egress) share one sequence; for every message that implies durable state (votes, vote requests, replication acks, heartbeat responses, ...) TLC requires the term/vote/entries it implies in the durable image built from the completed saves; an entry reaches the user state machine only after the replica made it durable itself (ApplyCovered); after every power loss (also at the N-th file-system operation, repeated on a partitioned host, clean restarts in between) the image the log store returns must cover everything the replica told the world; finally all hosts lose power at once and every proposal that was reported Completed must be visible to a linearizable read. Pebble and Tan.",
     note=NH_NOTE + " Observation skew (save stamped late, egress stamped early) can only hide an ordering, never invent one.")
 CHECKS["C11"] = dict(
     engine="tlc+nhsim", category="exploration", design_ref="5 C11",
